@@ -76,6 +76,8 @@ pub fn from_total(t: i128, largest: usize) -> Fields {
 #[derive(Debug, Clone, Copy, PartialEq)]
 pub enum DErr {
     Range,
+    /// the specification's own algorithm hits one of its assertions on this input (not judged)
+    SpecAssert,
 }
 
 /// AddDurations without relativeTo.
